@@ -90,4 +90,9 @@ CLAIMED = {
   text="For every accepted range the whole membership vector over the universe is computed by the real code; it must be constant on each equivalence class of the real Compare and, for conjunctive ranges, its member classes must be contiguous - which decides every pair and every triple of the universe, not a sample.",
   note="Universe: stride sub-universe of C01's universe plus up to 3 equal spellings per member; elements of C01's known-intransitive classes excluded; pypi '===' and alpm pkgrel-presence mixing excluded as stated.",
   ref="DESIGN.md 4 (C20)"),
+ "C06": dict(
+  technique="bounded-exhaustive enumeration of all strings up to length L over a 24-character syntax alphabet (plus byte-level specials at every position, grammar candidates, VERS prefixes, CLI vectors and structured growth families) on every entry point, with overlay-injected statement counters giving a deterministic step budget and growth-ratio oracle",
+  text="Every enumerated string is fed to all 42 parsers / vers.Contains / the CLI under recover and under a statement budget of 50*n^2+1e6 injected-counter steps; panics, value-and-error or neither, follow-up operation panics, error-with-true and budget overruns (the deterministic form of 'does not terminate / worse than quadratic') are violations; growth families must stay at most quadratic by measured step ratios.",
+  note="Instrumentation is injected with go build -overlay from the current /repo tree on every run (no source change) and self-tested by running the repository's tests on the instrumented tree. Standard-library internals are not counted. Fuzzing beyond the alphabet is not part of this technique.",
+  ref="DESIGN.md 3.5, 4 (C06)"),
 }
